@@ -13,6 +13,7 @@ import (
 	"strings"
 	"time"
 
+	"verif/sim/sched"
 	"verif/sim/tape"
 )
 
@@ -114,6 +115,50 @@ func setToSlice(m map[uint64]struct{}) []uint64 {
 	return out
 }
 
+// stuckInCodeUnderTest inspects the stack of a goroutine that never reached a
+// yield point: if its innermost non-runtime frame is inside raft-wal (not the
+// hook package, not the harness) it is blocked forever on a primitive of the
+// code under test - a liveness violation, not harness trouble. It returns the
+// blocking state and frame.
+func stuckInCodeUnderTest(stack string) (string, bool) {
+	lines := strings.Split(stack, "\n")
+	if len(lines) < 2 {
+		return "", false
+	}
+	state := lines[0]
+	if i := strings.Index(state, "["); i >= 0 {
+		state = strings.TrimSuffix(state[i+1:], "]:")
+		if j := strings.Index(state, ","); j >= 0 {
+			state = state[:j]
+		}
+	}
+	switch state {
+	case "chan send", "chan receive", "select", "sync.Mutex.Lock", "semacquire", "sync.RWMutex.Lock", "sync.WaitGroup.Wait", "sync.Cond.Wait":
+	default:
+		return "", false
+	}
+	for _, ln := range lines[1:] {
+		if strings.HasPrefix(ln, "\t") {
+			continue
+		}
+		fn := ln
+		switch {
+		case strings.HasPrefix(fn, "runtime."), strings.HasPrefix(fn, "sync."), strings.HasPrefix(fn, "internal/"):
+			continue
+		case strings.HasPrefix(fn, "github.com/hashicorp/raft-wal/verifhook"):
+			return "", false
+		case strings.HasPrefix(fn, "github.com/hashicorp/raft-wal"):
+			if i := strings.LastIndex(fn, "("); i > 0 {
+				fn = fn[:i]
+			}
+			return state + " in " + strings.TrimPrefix(fn, "github.com/hashicorp/raft-wal"), true
+		default:
+			return "", false
+		}
+	}
+	return "", false
+}
+
 // SeedOf is the seed of run i of a batch.
 func SeedOf(base uint64, i uint64) uint64 { return tape.Mix(base, i) }
 
@@ -141,6 +186,15 @@ func WorkerMain(args []string) {
 	os.MkdirAll(*replays, 0o755)
 	progress := filepath.Join(*replays, fmt.Sprintf(".current-%s-%d", *prop, *wi))
 	defer os.Remove(progress)
+	var curSeed uint64
+	stuckFile := filepath.Join(*replays, fmt.Sprintf(".stuck-%s-%d", *prop, *wi))
+	os.Remove(stuckFile)
+	sched.OnStuck = func(desc, stack string) {
+		if what, ok := stuckInCodeUnderTest(stack); ok {
+			b, _ := json.Marshal(map[string]interface{}{"seed": curSeed, "what": what, "desc": desc, "stack": stack})
+			os.WriteFile(stuckFile, b, 0o644)
+		}
+	}
 	for k := uint64(0); ; k++ {
 		if *maxRuns > 0 && wo.Runs >= *maxRuns {
 			break
@@ -154,6 +208,7 @@ func WorkerMain(args []string) {
 			wo.FirstSeed = seed
 		}
 		wo.LastSeed = seed
+		curSeed = seed
 		if k%64 == 0 {
 			// lets the master attribute a worker that died (panic in a library
 			// goroutine) to a seed
@@ -272,6 +327,13 @@ func ReplayMain(args []string) {
 	if err != nil {
 		fmt.Fprintln(os.Stderr, err)
 		os.Exit(2)
+	}
+	sched.OnStuck = func(desc, stack string) {
+		if what, ok := stuckInCodeUnderTest(stack); ok {
+			fmt.Printf("class=blocked-forever:%s\n%s\n%s\n", what, desc, stack)
+			fmt.Printf("VIOLATION property=%s replay=%s\n", rp.Property, fs.Arg(0))
+			os.Exit(1)
+		}
 	}
 	r := RunReplay(rp)
 	if *v {
@@ -398,6 +460,25 @@ func CheckMain(args []string) {
 		werr := p.cmd.Wait()
 		p.errf.Close()
 		b, rerr := os.ReadFile(p.out)
+		if sb, serr := os.ReadFile(filepath.Join(replays, fmt.Sprintf(".stuck-%s-%d", *prop, i))); serr == nil {
+			os.Remove(filepath.Join(replays, fmt.Sprintf(".stuck-%s-%d", *prop, i)))
+			var st struct {
+				Seed  uint64 `json:"seed"`
+				What  string `json:"what"`
+				Desc  string `json:"desc"`
+				Stack string `json:"stack"`
+			}
+			if json.Unmarshal(sb, &st) == nil && st.Seed != 0 {
+				cfg, plan := Generate(*prop, st.Seed, *tier)
+				rp := &Replay{Property: *prop, Seed: st.Seed, Config: cfg, Plan: plan, FromSeed: true,
+					Violation: &Violation{Property: *prop, Oracle: "never-blocks-forever", Class: "blocked-forever:" + st.What, Message: "a task never returned: " + st.What + "; scheduler view: " + st.Desc + "\n" + st.Stack},
+					Note:      "the run blocks a goroutine forever on a primitive of the code under test; replay re-executes the seed and reports the same block after the watchdog interval"}
+				path := filepath.Join(replays, fmt.Sprintf("%s-%d.json", *prop, st.Seed))
+				rp.Write(path)
+				merged.Violations = append(merged.Violations, FoundViolation{Class: rp.Violation.Class, Oracle: rp.Violation.Oracle, Message: rp.Violation.Message, Replay: path, Seed: st.Seed})
+				continue
+			}
+		}
 		if werr != nil || rerr != nil {
 			eb, _ := os.ReadFile(filepath.Join(tmp, fmt.Sprintf("w%d.err", i)))
 			cur, _ := os.ReadFile(filepath.Join(replays, fmt.Sprintf(".current-%s-%d", *prop, i)))
